@@ -19,6 +19,8 @@ impl<'a> Iterator for Tokenizer<'a> {
     type Item = Token;
 
     fn next(&mut self) -> Option<Token> {
+        #[cfg(feature = "verif_hooks")]
+        crate::verif_hooks::tick();
         let current_char = self.expr.next();
 
         match current_char {
@@ -104,6 +106,8 @@ impl<'a> Iterator for Tokenizer<'a> {
             Some('0'..='9') => {
                 let mut number = current_char?.to_string();
                 while let Some(next_char) = self.expr.peek() {
+                    #[cfg(feature = "verif_hooks")]
+                    crate::verif_hooks::tick();
                     if next_char.is_ascii_digit() {
                         number.push(self.expr.next()?);
                     } else {
